@@ -87,6 +87,9 @@ def sdiff(e, s, table, unsig=False):
     scalar s; for an array symbol (unsig=True) the Jacobian row of SIG(e) with
     respect to the element-wise aligned array is de/ds itself."""
 
+    if isinstance(e, sp.MatrixBase):
+        return e.applyfunc(lambda x: sdiff(x, s, table, unsig))
+
     def d(x):
         if x.func == SIG:
             inner = d(x.args[0])
@@ -120,6 +123,22 @@ def equal(a, b, table):
     """True / False / None(undecided) for a == b as expressions."""
     if a is None or b is None:
         return None
+    if isinstance(a, sp.MatrixBase) or isinstance(b, sp.MatrixBase):
+        if not (isinstance(a, sp.MatrixBase) and isinstance(b, sp.MatrixBase)) or a.shape != b.shape:
+            if isinstance(b, sp.MatrixBase) and not isinstance(a, sp.MatrixBase) and a == 0:
+                a = sp.zeros(*b.shape)
+            elif isinstance(a, sp.MatrixBase) and not isinstance(b, sp.MatrixBase) and b == 0:
+                b = sp.zeros(*a.shape)
+            else:
+                return None
+        res = True
+        for x, y in zip(list(a), list(b)):
+            r = equal(x, y, table)
+            if r is False:
+                return False
+            if r is None:
+                res = None
+        return res
     try:
         r = norm_sigma(sp.expand(a - b), table)
         r = sp.simplify(sp.expand(r))
@@ -234,6 +253,8 @@ class SymX(Domain):
         if a is None or b is None:
             return None
         try:
+            if isinstance(a, sp.MatrixBase) or isinstance(b, sp.MatrixBase):
+                return a if a == b else None
             return a if (a == b or sp.simplify(a - b) == 0) else None
         except Exception:
             return None
@@ -378,7 +399,8 @@ class SymX(Domain):
             if node.attr in ("real",):
                 return self.of(node.value)
             if node.attr == "T":
-                return self.of(node.value)
+                b = self.of(node.value)
+                return b.T if isinstance(b, sp.MatrixBase) else b
             return None
         if isinstance(node, ast.Subscript):
             if isinstance(v.extra, tuple) and v.extra and v.extra[0] == "cell":
@@ -427,6 +449,27 @@ class SymX(Domain):
             if a is None or b is None:
                 return None
             op = type(node.op)
+            ma, mb = isinstance(a, sp.MatrixBase), isinstance(b, sp.MatrixBase)
+            if ma or mb:
+                if ma and mb:
+                    if a.shape != b.shape:
+                        return None
+                    if op is ast.Add:
+                        return a + b
+                    if op is ast.Sub:
+                        return a - b
+                    if op is ast.Mult:
+                        return sp.matrix_multiply_elementwise(a, b)
+                    return None
+                if op is ast.Mult:
+                    return a * b
+                if op is ast.Div and ma:
+                    return a / b
+                if op is ast.Add:
+                    return (a + sp.ones(*a.shape) * b) if ma else (sp.ones(*b.shape) * a + b)
+                if op is ast.Sub:
+                    return (a - sp.ones(*a.shape) * b) if ma else (sp.ones(*b.shape) * a - b)
+                return None
             if op is ast.Add:
                 return a + b
             if op is ast.Sub:
@@ -440,6 +483,20 @@ class SymX(Domain):
             return None
         if isinstance(node, ast.IfExp):
             return self.join(self.of(node.body), self.of(node.orelse))
+        if isinstance(node, (ast.List, ast.Tuple)):
+            items = [self.of(e) for e in node.elts]
+            if not items or any(x is None for x in items) or len(items) > 12:
+                return None
+            if all(isinstance(x, sp.MatrixBase) and x.shape[1] == 1 for x in items):
+                n = items[0].shape[0]
+                if all(x.shape[0] == n for x in items):
+                    return sp.Matrix([list(x) for x in items])  # rows
+                return None
+            if any(isinstance(x, sp.MatrixBase) for x in items):
+                return None
+            if any(has_array(x, self.table) for x in items):
+                return None
+            return sp.Matrix(items)
         if isinstance(node, ast.Call):
             fn = unparse(node.func)
             short = fn.split(".")[-1]
@@ -458,11 +515,25 @@ class SymX(Domain):
                 base = self.of(node.func.value)
                 if base is None:
                     return None
+                if isinstance(base, sp.MatrixBase):
+                    if short in ("flatten", "ravel"):
+                        return sp.Matrix([x for x in base.tolist() for x in x]) if base.shape[1] > 1 else base
+                    if short in ("copy", "astype", "squeeze"):
+                        return base
+                    if short == "item" and base.shape == (1, 1):
+                        return base[0, 0]
+                    return None
+                if short == "item":
+                    return base if not has_array(base, self.table) else None
                 if short in ("copy", "flatten", "ravel", "reshape", "squeeze", "astype", "real"):
                     return base
                 if short == "sum" and not node.keywords and not args:
                     return SIG(base) if has_array(base, self.table) else base
                 return None
+            if short in ("array", "asarray") and ads and ads[0] is not None:
+                return ads[0]
+            if short == "tile" and ads and isinstance(ads[0], sp.MatrixBase):
+                return ads[0]  # repetition of a small constant block (the block is what is compared)
             if short in ("float", "complex", "real", "asarray", "array", "squeeze", "copy", "atleast_1d", "float64") and len(ads) == 1:
                 return ads[0]
             if short == "log10" and ads and ads[0] is not None:
@@ -488,14 +559,24 @@ class SymX(Domain):
 def _apply(op, cur, d):
     if cur is None or d is None:
         return None
-    if op == "+=":
-        return cur + d
-    if op == "-=":
-        return cur - d
-    if op == "*=":
-        return cur * d
-    if op == "/=":
-        return cur / d
+    try:
+        ma, mb = isinstance(cur, sp.MatrixBase), isinstance(d, sp.MatrixBase)
+        if ma != mb:
+            # numpy broadcasting of a small vector against an array symbol is outside the fragment
+            if (ma and d.free_symbols) or (mb and cur.free_symbols):
+                if op in ("*=", "/=") and ma and not mb:
+                    return cur * d if op == "*=" else cur / d
+                return None
+        if op == "+=":
+            return cur + d
+        if op == "-=":
+            return cur - d
+        if op == "*=":
+            return sp.matrix_multiply_elementwise(cur, d) if (ma and mb) else cur * d
+        if op == "/=":
+            return cur / d
+    except Exception:
+        return None
     return None
 
 
